@@ -109,10 +109,10 @@ func genC17(t *rapid.T) c17Scenario {
 			continue
 		}
 		seen[strings.ToLower(c17Identifier(c))] = true
-		c.Fans = genSubset(t, "fanCh", []int{1, 2, 3, 4, 5, 6, 7}, 0)
-		c.Pwms = genSubset(t, "pwmCh", []int{1, 2, 3, 4, 5, 6, 7}, 0)
+		c.Fans = genSubset(t, "fanCh", []int{1, 2, 3, 4, 5, 6, 7, 10, 12}, 0)
+		c.Pwms = genSubset(t, "pwmCh", []int{1, 2, 3, 4, 5, 6, 7, 10, 12}, 0)
 		c.Enables = genSubset(t, "enCh", c.Pwms, 0)
-		c.Temps = genSubset(t, "tempN", []int{1, 2, 3, 4, 5, 6, 7, 8, 9}, 0)
+		c.Temps = genSubset(t, "tempN", []int{1, 2, 3, 4, 5, 6, 7, 8, 9, 10, 11, 12, 13, 21}, 0) // two-digit numbers: temp10 sorts before temp2 as a string
 		if len(c.Fans) == 0 && len(c.Temps) == 0 {
 			c.Temps = []int{rapid.IntRange(1, 9).Draw(t, "oneTemp")}
 		}
